@@ -111,6 +111,11 @@ def gen_workload(rng, profile="c06"):
         ident = spec["copy_of"] if spec.get("copy_of") is not None else j
         marker = rng.random() < pmark or any(x["marker"] for i, x in enumerate(jobs)
                                              if (x["copy_of"] if x.get("copy_of") is not None else i) == ident)
+        # ... and it is there from the start of the run or not at all: a marker that appears while an earlier
+        # submission of the same identifier is waiting (completion by another process; since 71b34c7 aio_start
+        # looks again under the job lock and returns DONE without launching) is outside the model
+        if spec.get("copy_of") is not None:
+            marker = jobs[ident]["marker"]
         # a process of an earlier run may still be running for this job (never for a copy): exit code
         # retrievable or not, marker written or not when it ends (a marker that pre-exists stays)
         adopt = None
